@@ -42,7 +42,12 @@ import AnsiProofs.Lemmas.Remove
     (`endOk_true`, `loopOk_spec` — the induction of `Remove.removeLoop_spec` —, `loopOk_of_WF`).
   * `namespace C07c` — `removeCore_eq` unfolds the generated definition, peels the two `ensure` statements
     off, applies `core_frame` and discharges the specs for the generated lambdas by
-    `intro`/`simp`/`cases`; the other theorems are corollaries.
+    `intro`/`simp`/`cases`; the other theorems are corollaries.  The script of `removeCore_eq` was run
+    unchanged against a rewritten variant of the generated function (`if start in self._fmts: pass else:`,
+    `not (idx >= start)`, `end < idx`, `start == idx`, `if idx != end:` with the branches swapped,
+    `len(removed_settings) > 0`, `if rem_idx < 0: continue`, `if ansi_settings is not None:` first with
+    `if s not in …: continue` and `add_idx >= 0`, `removed_settings.append(s)` hoisted, the element bound
+    before the test in the last loop, no trailing rebinding of `self`) and passed.
 -/
 
 namespace C07c
@@ -128,6 +133,25 @@ theorem dropWhileHead_eq {α : Type} (c : α → Bool) (l : List α) :
     cases h : c a with
     | true => simp [h, ih]
     | false => simp [h]
+
+/-- `_find_setting_reference(s, l) >= 0` / `< 0` as propositions (the forms `simp` normalises to) -/
+theorem find_nonneg_iff (s : Setting) (l : List Setting) :
+    0 ≤ Gen.findSettingReference s l ↔ hasId l s.id = true := by
+  have := find_ge_zero s l
+  rw [← this]
+  simp
+
+theorem find_neg_iff (s : Setting) (l : List Setting) :
+    Gen.findSettingReference s l < 0 ↔ hasId l s.id = false := by
+  have := find_nonneg_iff s l
+  cases h : hasId l s.id <;> simp [h] at this ⊢ <;> omega
+
+/-- comparing two keys that are natural numbers, as integers: every atom decided -/
+theorem cmp_lt {a b : Nat} (h : a < b) :
+    ((a : Int) < b) ∧ ((a : Int) ≤ b) ∧ ((a : Int) ≠ b) ∧ ((b : Int) ≠ a) ∧ ¬ ((b : Int) < a) ∧
+      ¬ ((b : Int) ≤ a) := by omega
+
+theorem cmp_self (a : Nat) : ¬ ((a : Int) < a) ∧ ((a : Int) ≤ a) ∧ ((a : Int) = a) := by omega
 
 theorem sliceAssign_zero {α : Type} (l P : List α) : Py.sliceAssign l 0 0 P = P ++ l := by
   have := sliceAssign_nat l 0 P
@@ -644,6 +668,13 @@ end L
 
 open L C06d.L Remove
 
+/-- the head of one round: fetch the point, step the iterator, decide the comparisons of the key with
+    `start` and `end` (given as facts about integers), clean up the Booleans -/
+local macro "round_simp" "[" ts:Lean.Parser.Tactic.simpLemma,* "]" : tactic =>
+  `(tactic| simp only [$ts,*, C09c.iter_step_is_code, C06d.L.bind_ok, gt_iff_lt, ge_iff_le, ne_eq,
+      not_true_eq_false, not_false_eq_true, decide_true, decide_false, Bool.not_true, Bool.not_false,
+      Bool.false_eq_true, Bool.true_and, Bool.and_true, Bool.false_and, Bool.and_false, if_true, if_false])
+
 /-- the method was translated (did not fall outside the translator's fragment) -/
 theorem translated : Gen.removeCoreOk = true := by decide
 
@@ -664,84 +695,85 @@ theorem removeCore_eq (x : AStr) (hs : SortedKeys x.fmts) (A : Option (List Sett
   obtain ⟨xs, xf⟩ := x
   simp only [AStr.len] at *
   unfold Gen.removeCore
+  have hse : st < en := by omega
   refine (bind_of_ok (a := ⟨xs, xf.ensure st⟩) (ensure_stmt ?_)).trans ?_
-  · simp only [has_nat, set_nat, bind_ok]
-    cases xf.contains st <;> rfl
+  · simp only [has_nat, set_nat, bind_ok, Bool.not_not] <;> cases xf.contains st <;> rfl
   refine (bind_of_ok (a := ⟨xs, (xf.ensure st).ensure en⟩) (ensure_stmt ?_)).trans ?_
-  · simp only [has_nat, set_nat, bind_ok]
-    cases (xf.ensure st).contains en <;> rfl
+  · simp only [has_nat, set_nat, bind_ok, Bool.not_not] <;> cases (xf.ensure st).contains en <;> rfl
   refine core_frame (M := A.map texts) (st := st) (en := en) ?spec
     (sorted_ensure (sorted_ensure hs st) en) rfl rfl ?k
   case k =>
+    -- what follows the loop: the empty points are dropped
     intro a R c d
     simp only [C15c.point_bool_is_code]
   case spec =>
+    -- one round of the loop over the keys, branch by branch
     refine ⟨?_, ?_, ?_, ?_, ?_, ?_⟩
-    · intro a R c k; rfl
-    · intro F R c k p hg h1
-      simp only [get_of_get? hg, modifyAt_of_get? _ hg, C09c.iter_step_is_code, bind_ok,
-        Bool.false_eq_true, if_false]
-      simp [h1]
-    · intro F R c k p hg h1 h2
-      simp only [get_of_get? hg, modifyAt_of_get? _ hg, C09c.iter_step_is_code, bind_ok,
-        Bool.false_eq_true, if_false]
-      simp [h1, h2]
-    · intro F R c k p hg h1 h2 h3
+    · intro a R c k
+      first | rfl | simp
+    · -- before `start`
+      intro F R c k p hg h1
+      round_simp [get_of_get? hg, modifyAt_of_get? _ hg, cmp_lt h1, cmp_lt (show k < en by omega)]
+    · -- behind `end`
+      intro F R c k p hg h1 h2
+      round_simp [get_of_get? hg, modifyAt_of_get? _ hg, cmp_lt h2, cmp_lt (show st < k by omega)]
+    · -- at `start`
+      intro F R c k p hg h1 h2 h3
       subst h3
-      simp only [get_of_get? hg, modifyAt_of_get? _ hg, C09c.iter_step_is_code, bind_ok,
-        Bool.false_eq_true, if_false]
-      simp only [h2, Int.lt_irrefl, gt_iff_lt, Int.ofNat_lt, decide_false, decide_true, Bool.false_eq_true,
-        if_false, if_true]
+      round_simp [get_of_get? hg, modifyAt_of_get? _ hg, cmp_self k, cmp_lt hse]
       rw [fold_start (M := A.map texts) ?sspec]
       case sspec =>
         intro acc s
         obtain ⟨sp, rs⟩ := acc
         unfold rasStep
-        cases hh : hasId sp.add s.id <;> cases A <;>
-          simp [find_lt_zero, hh, del_found, selected_none, selected_some, Py.optGet, bind_ok, ite_ok_gen]
-      rfl
-    · intro F R c k p hg h1 h2 h3 h4
+        cases A with
+        | none =>
+          cases hh : hasId sp.add s.id <;>
+            simp [find_nonneg_iff, find_neg_iff, hh, del_found, selected_none, bind_ok]
+        | some l =>
+          cases hh : hasId sp.add s.id <;> cases ht : hasTxt l s.txt <;>
+            simp [find_nonneg_iff, find_neg_iff, hh, ht, del_found, selected_some, Py.optGet, bind_ok]
+      first | rfl | simp [bind_ok]
+    · -- at `end`
+      intro F R c k p hg h1 h2 h3 h4
       subst h4
-      simp only [get_of_get? hg, modifyAt_of_get? _ hg, C09c.iter_step_is_code, bind_ok,
-        Bool.false_eq_true, if_false]
-      have e3 : ¬ ((k : Int) = (st : Int)) := by omega
-      simp only [h1, e3, Int.lt_irrefl, gt_iff_lt, Int.ofNat_lt, decide_false, decide_true, Bool.false_eq_true,
-        if_false, if_true]
+      round_simp [get_of_get? hg, modifyAt_of_get? _ hg, cmp_self k, cmp_lt hse]
       rw [fold_rems ?rspec]
       case rspec =>
         intro R sp i s hi
         have hlt := lt_of_getElem? hi
-        simp only [getIdx_nat hi, bind_ok, find_ge_zero]
-        cases hh : hasId R s.id <;> simp [hh, del_found, delIdx_nat hlt, bind_ok]
-      simp only [bind_ok, find_lt_zero, dropWhileHead_eq, sliceAssign_zero]
+        cases hh : hasId R s.id <;>
+          simp [getIdx_nat hi, find_nonneg_iff, find_neg_iff, hh, del_found, delIdx_nat hlt, bind_ok]
+      simp only [bind_ok, find_lt_zero, find_ge_zero, dropWhileHead_eq, sliceAssign_zero]
       unfold endOk endPt
       generalize AStr.removeRems p.rem R = rr
-      generalize hall : List.all (List.filter (fun s => !hasId p.add s.id) (stepPoint c p))
-        (fun h_ => !hasId rr.2 h_.id) = al
       have e5 : ((k : Int) = (xs.length : Int)) ↔ k = xs.length := by omega
-      by_cases h5 : k = xs.length <;> cases h6 : rr.2.isEmpty <;> cases al <;>
-        simp [e5, h5, h6, bind_ok, bind_error]
-    · intro F R c k p hg h1 h2 h3 h4
-      simp only [get_of_get? hg, modifyAt_of_get? _ hg, C09c.iter_step_is_code, bind_ok,
-        Bool.false_eq_true, if_false]
-      have e3 : ¬ ((k : Int) = (st : Int)) := by omega
-      have e4 : ¬ ((k : Int) = (en : Int)) := by omega
-      simp only [h1, h2, e3, e4, gt_iff_lt, Int.ofNat_lt, decide_false, decide_true, Bool.false_eq_true,
-        if_false, if_true]
+      obtain ⟨r1, r2⟩ := rr
+      by_cases h5 : k = xs.length <;> cases r2 <;>
+        cases h7 : (List.filter (fun x => !hasId p.add x.id) (stepPoint c p)).all
+          (fun x => !hasId (r1, _).2 x.id) <;>
+        simp [e5, h5, h7, bind_ok, bind_error] <;> simp_all
+    · -- strictly inside
+      intro F R c k p hg h1 h2 h3 h4
+      round_simp [get_of_get? hg, modifyAt_of_get? _ hg, cmp_lt (show st < k by omega),
+        cmp_lt (show k < en by omega)]
       rw [fold_rems ?rspec]
       case rspec =>
         intro R sp i s hi
         have hlt := lt_of_getElem? hi
-        simp only [getIdx_nat hi, bind_ok, find_ge_zero]
-        cases hh : hasId R s.id <;> simp [hh, del_found, delIdx_nat hlt, bind_ok]
+        cases hh : hasId R s.id <;>
+          simp [getIdx_nat hi, find_nonneg_iff, find_neg_iff, hh, del_found, delIdx_nat hlt, bind_ok]
       simp only [bind_ok]
       rw [fold_mid (M := A.map texts) ?mspec]
       case mspec =>
         intro sp R i s hi
         have hlt := lt_of_getElem? hi
-        cases A <;>
-          simp [getIdx_nat hi, delIdx_nat hlt, bind_ok, selected_none, selected_some, Py.optGet, ite_ok_gen]
-      rfl
+        cases A with
+        | none => simp [getIdx_nat hi, delIdx_nat hlt, bind_ok, selected_none]
+        | some l =>
+          cases ht : hasTxt l s.txt <;>
+            simp [getIdx_nat hi, delIdx_nat hlt, bind_ok, selected_some, Py.optGet, ht]
+      first | rfl | simp [bind_ok, midPt, midR]
 
 /-- 2. the only way not to return the model's value is the IndexError of the `while` loop at `end`:
     no KeyError, nothing outside the model's representation, no other Python exception -/
